@@ -175,11 +175,21 @@ type World struct {
 	pendingAmbiguous  bool
 	pendingUnparsable bool
 	newProposals      []*MProposal
+	refundedNow       []*MStake
+	jailedNow         [][]byte
 
 	// per-block feature bookkeeping
 	delegDeletedThisBlock map[string]bool
 	delegOps              map[string]int
 	withdrawsThisBlock    map[string]int
+
+	// why the model changed an account's balance in the current block (cause tags)
+	balCause map[string]map[string]bool
+	balStart map[string]*uint256.Int // model balances when the current block began
+
+	// PeekDelegatee lets the model look at the application's uncommitted consensus view
+	// (only used where the property leaves the rule open, see the jailing window)
+	PeekDelegatee func(addr []byte) bool
 
 	// reference validator selection for set(h+2), keyed by h
 	Expected map[int64]map[string]SetEntry
@@ -223,8 +233,8 @@ func NewWorld(g *Genesis) *World {
 	return w
 }
 
-// genesisStakeID: the application gives every genesis stake the id 0x00..00.
-func genesisStakeID(i int, a *Actor) []byte { return make([]byte, 32) }
+// genesisStakeID: a genesis stake has no staking tx; its id is the hash of the validator's public key.
+func genesisStakeID(i int, a *Actor) []byte { return sha(a.Pub) }
 
 func (w *World) cloneDelegs() map[string]*MDeleg {
 	m := map[string]*MDeleg{}
@@ -242,6 +252,22 @@ func (w *World) acct(addr []byte) *MAcct {
 		w.Accts[k] = a
 	}
 	return a
+}
+
+func (w *World) cause(addr []byte, c string) {
+	if w.balCause == nil {
+		w.balCause = map[string]map[string]bool{}
+	w.balStart = map[string]*uint256.Int{}
+	for k, a := range w.Accts {
+		w.balStart[k] = a.Bal.Clone()
+	}
+	}
+	m := w.balCause[ak(addr)]
+	if m == nil {
+		m = map[string]bool{}
+		w.balCause[ak(addr)] = m
+	}
+	m[c] = true
 }
 
 func (w *World) hasAcct(addr []byte) bool { _, ok := w.Accts[ak(addr)]; return ok }
@@ -296,7 +322,13 @@ func (w *World) BeginBlock(b *Block) {
 	w.issuedBlock = u256(0)
 	w.blockStartD = w.delegAt[h-1]
 	w.delegDeletedThisBlock, w.delegOps, w.withdrawsThisBlock = nil, nil, nil
+	w.balCause = map[string]map[string]bool{}
+	w.balStart = map[string]*uint256.Int{}
+	for k, a := range w.Accts {
+		w.balStart[k] = a.Bal.Clone()
+	}
 	w.pendingCandidates, w.pendingAmbiguous, w.pendingUnparsable, w.newProposals = nil, false, false, nil
+	w.refundedNow, w.jailedNow = nil, nil
 	p := w.Params
 	w.ParamsAt[h] = p.clone()
 	delete(w.ParamsAt, h-8)
@@ -305,7 +337,8 @@ func (w *World) BeginBlock(b *Block) {
 	for _, e := range b.Evidence {
 		for _, k := range sortedKeys(w.Open) {
 			pr := w.Open[k]
-			if !pr.CommittedOpen {
+			if !pr.CommittedOpen || pr.End < h {
+				// voting already closed: the proposal is tallied at the end of this block; it is not "open" any more
 				continue
 			}
 			v, ok := pr.Voters[ak(e.Addr)]
@@ -403,16 +436,30 @@ func (w *World) BeginBlock(b *Block) {
 			if s0 < 0 {
 				s0 = 0
 			}
-			cnt := int64(0)
+			// The statement does not say whether the window holds W or W+1 heights.
+			cntWide, cntNarrow := int64(0), int64(0) // [signedH-W, signedH] and [signedH-W+1, signedH]
 			for _, x := range d.NotSigned {
 				if x >= s0 && x <= signedH {
-					cnt++
+					cntWide++
+				}
+				if x > signedH-p.SignedBlocksWindow && x <= signedH {
+					cntNarrow++
 				}
 			}
 			// rewindow (the app drops heights before the window, keeping one)
 			d.NotSigned = trimBefore(d.NotSigned, s0)
-			if p.SignedBlocksWindow-cnt < p.MinSignedBlocks {
+			jailWide := p.SignedBlocksWindow-cntWide < p.MinSignedBlocks
+			jailNarrow := p.SignedBlocksWindow-cntNarrow < p.MinSignedBlocks
+			jail := jailWide
+			if jailWide != jailNarrow {
+				w.Feat["jail_ambiguous"]++
+				if w.PeekDelegatee != nil {
+					jail = !w.PeekDelegatee(v.Addr)
+				}
+			}
+			if jail {
 				w.Feat["jailed"]++
+				w.jailedNow = append(w.jailedNow, append([]byte(nil), v.Addr...))
 				for _, s := range d.Stakes {
 					w.release(s, h, p.LazyRewardBlocks)
 				}
@@ -477,8 +524,10 @@ func (w *World) release(s *MStake, h int64, period int64) {
 	s.ReleasedAt = h
 	s.PeriodAtRel = period
 	s.CommittedUnb = false
-	w.Unbonding[hx(s.TxHash)] = s
+	w.Unbonding[unbKey(s)] = s
 }
+
+func unbKey(s *MStake) string { return hx(s.TxHash) + "/" + hx(s.To) }
 
 // EndBlock applies block-end rules and returns the predicted validator updates' resulting
 // reported set (the caller compares with the observed updates).
@@ -531,6 +580,7 @@ func (w *World) EndBlock(res *BlockResult) {
 		if b.Proposer != nil {
 			a := w.acct(b.Proposer)
 			a.Bal.Add(a.Bal, w.feeSum)
+			w.cause(b.Proposer, "proposer")
 		} else {
 			w.LostFees.Add(w.LostFees, w.feeSum)
 			w.Feat["fees_without_proposer"]++
@@ -546,6 +596,8 @@ func (w *World) EndBlock(res *BlockResult) {
 		}
 		a := w.acct(s.Owner)
 		a.Bal.Add(a.Bal, powerToAmount(s.Power))
+		w.cause(s.Owner, "refund")
+		w.refundedNow = append(w.refundedNow, s)
 		delete(w.Unbonding, k)
 		matured++
 		w.Feat["refund"]++
